@@ -1,0 +1,63 @@
+// Copyright 2021 CloudWeGo Authors
+//
+// Licensed under the Apache License, Version 2.0 (the "License");
+// you may not use this file except in compliance with the License.
+// You may obtain a copy of the License at
+//
+//   http://www.apache.org/licenses/LICENSE-2.0
+//
+// Unless required by applicable law or agreed to in writing, software
+// distributed under the License is distributed on an "AS IS" BASIS,
+// WITHOUT WARRANTIES OR CONDITIONS OF ANY KIND, either express or implied.
+// See the License for the specific language governing permissions and
+// limitations under the License.
+
+//go:build verif
+// +build verif
+
+package generator
+
+import "github.com/cloudwego/thriftgo/generator/backend"
+
+// This file is compiled only with `-tags verif`. It gives a verification harness a
+// view of (and a scheduling gate at) the linearization points of
+// asyncPostProcess.OnFinished. It never changes which operations OnFinished executes:
+// the callback can only observe and delay the calling goroutine.
+//
+// Event kinds, called on the dispatching goroutine (path = job about to be dispatched
+// or ""):   select acquired errRecv errWaited spawn wait waited finalErr finalNone
+// called on the worker goroutine of a job (path = the job's path):
+//           start ppDone writeDone errSent done exit
+
+// VerifPersistHook, when non-nil, is called at every hook point of every OnFinished
+// call that has no per-instance hook (e.g. the one made by Generator.Persist).
+// nil (the default) means nothing happens.
+var VerifPersistHook func(kind, path string)
+
+type verifPersistState struct {
+	hook func(kind, path string)
+}
+
+func (s *verifPersistState) verifEv(kind, path string) {
+	h := s.hook
+	if h == nil {
+		h = VerifPersistHook
+	}
+	if h != nil {
+		h(kind, path)
+	}
+}
+
+// VerifPersist runs the real asyncPostProcess.OnFinished over jobs ([path, content]
+// pairs, in order) with the given post processor (may be nil), concurrency limit and
+// write callback. hook (may be nil) receives the events of this call only.
+func VerifPersist(pp backend.PostProcessor, concurrency int, jobs [][2]string,
+	write func(path string, content []byte) error, hook func(kind, path string)) error {
+	p := newAsyncPostProcess(pp)
+	p.concurrency = concurrency
+	p.hook = hook
+	for _, j := range jobs {
+		p.Add(j[0], j[1])
+	}
+	return p.OnFinished(write)
+}
